@@ -68,14 +68,15 @@ class ANSI:
             # Everything between \001 and \002 should become a ZeroWidthEscape.
             if c == "\001":
                 escaped_text = ""
-                while c != "\002":
+                while True:
                     c = yield
                     if c == "\002":
                         formatted_text.append(("[ZeroWidthEscape]", escaped_text))
-                        c = yield
                         break
-                    else:
-                        escaped_text += c
+                    escaped_text += c
+                # Back to the top: the next character can start another
+                # zero-width region.
+                continue
 
             # Check for CSI
             if c == "\x1b":
